@@ -354,4 +354,102 @@ Proof.
   repeat (destruct H as [<-|H]; [rewrite (Hf2 _) by reflexivity; step_env; rewrite (Hf1 _) by reflexivity; step_env; reflexivity|]).
   destruct H.
 Qed.
+
+Definition rr_inv (loc : env) : Prop :=
+  lookup "renderers" loc = Some (PList (map rend tvs0)) /\ lookup "null" loc = Some (enc_s (o_null o)) /\
+  lookup "spacerow" loc = Some (PList (repeat (enc_s []) (length tvs0))) /\ lookup "ctx" loc = Some ctx.
+
+Lemma keep_inv loc loc' : keep loc loc' -> rr_inv loc -> rr_inv loc'.
+Proof.
+  intros K [H1 [H2 [H3 H4]]]. unfold rr_inv.
+  rewrite !K by (cbn; auto). auto.
+Qed.
+
+Definition row_pv (row : list cellv) : list pv :=
+  let cells := map2 (render_cell numfmt o) (map rstate_of tvs0) row in
+  (if existsb is_many cells then many_lines cells else [PList (map enc_out cells)]) ++
+  (if o_spaced o then [PList (repeat (enc_s []) (length tvs0))] else []).
+
+Definition any_expr : expr := Eval cbv in match rr_if with SIf (XNot (XPrim _ [e])) _ _ => e | _ => XConst PNone end.
+
+Lemma rr_if_shape : rr_if = SIf (XNot (XPrim "truth" [any_expr])) [SYield (XName "cells")] rr_else.
+Proof. reflexivity. Qed.
+Lemma rr_spaced_shape : rr_spaced = SIf (XPrim "truth" [XAttr (XName "ctx") "spaced"]) [SYield (XName "spacerow")] [].
+Proof. reflexivity. Qed.
+Lemma rr_body_shape : rr_body = [SAssign (TName "cells") cells_expr; rr_if; rr_spaced].
+Proof. reflexivity. Qed.
+
+Lemma any_prim cells :
+  PT "builtins.any" [PList (map (fun c => PBool (is_many c)) cells)] = Ok (PBool (existsb is_many cells)).
+Proof.
+  cbn -[n_map_opt].
+  assert (E : n_map_opt as_boolv (map (fun c => PBool (is_many c)) cells) = Some (map is_many cells)).
+  { induction cells as [|c t IH]; [reflexivity|]. cbn [map n_map_opt as_boolv PBool]. now rewrite IH. }
+  rewrite E. f_equal. f_equal. induction cells as [|c t IH]; [reflexivity|]. cbn [map existsb]. now rewrite IH.
+Qed.
+
+Lemma any_eval cells loc : lookup "cells" loc = Some (PList (map enc_out cells)) ->
+  PyMini.eval call_ref PT {| locals := loc; fields := [] |} any_expr =
+  Ok ({| locals := loc; fields := [] |}, PBool (existsb is_many cells)).
+Proof.
+  intros Hc. unfold any_expr.
+  erewrite eval_prim1.
+  2:{ erewrite eval_listcomp; [|cbn; rewrite Hc; reflexivity].
+      rewrite (map_res_ok _ (fun v => PBool (match v with PList _ => true | _ => false end))); [reflexivity|].
+      intros v Hv. apply in_map_iff in Hv. destruct Hv as [c [<- _]]. repeat (progress (cbn; step_env)). reflexivity. }
+  rewrite map_map. rewrite (map_ext _ (fun c => PBool (is_many c))) by (intros c; now rewrite enc_out_islist).
+  rewrite any_prim. reflexivity.
+Qed.
+
+Lemma row_iter loc row acc : rr_inv loc -> ylist loc = Some acc ->
+  exists loc',
+  exec_block call_ref PT (write {| locals := loc; fields := [] |} (TName "row") (PList (map enc_rcell row))) rr_body =
+  Ok (Next {| locals := loc'; fields := [] |}) /\ rr_inv loc' /\ ylist loc' = Some (acc ++ row_pv row).
+Proof.
+  intros [Hr [Hn [Hs Hx]]] Hy. rewrite rr_body_shape. cbn [write locals fields].
+  set (cells := map2 (render_cell numfmt o) (map rstate_of tvs0) row).
+  rewrite exec_block_cons.
+  erewrite exec_assign; [|apply cells_eval; step_env; assumption || reflexivity].
+  cbn [bind write locals fields]. fold cells.
+  set (loc1 := update "cells" (PList (map enc_out cells)) (update "row" (PList (map enc_rcell row)) loc)).
+  assert (K1 : keep loc loc1) by (unfold loc1; keep_tac).
+  assert (Hc1 : lookup "cells" loc1 = Some (PList (map enc_out cells))) by apply lookup_update_eq.
+  assert (Hy1 : ylist loc1 = Some acc) by (unfold loc1; rewrite !ylist_other by reflexivity; exact Hy).
+  clearbody loc1.
+  (* the if statement *)
+  rewrite exec_block_cons, rr_if_shape.
+  erewrite (exec_if call_ref PT _ _ _ _ _ (PBool (negb (existsb is_many cells))) (negb (existsb is_many cells))).
+  2:{ cbn [PyMini.eval]. erewrite eval_prim1; [|apply any_eval; exact Hc1]. cbn. destruct (existsb is_many cells); reflexivity. }
+  2:{ destruct (existsb is_many cells); reflexivity. }
+  assert (E2 : exists loc2, (if negb (existsb is_many cells)
+                 then exec_block call_ref PT {| locals := loc1; fields := [] |} [SYield (XName "cells")]
+                 else exec_block call_ref PT {| locals := loc1; fields := [] |} rr_else) = Ok (Next {| locals := loc2; fields := [] |}) /\
+               keep loc1 loc2 /\
+               ylist loc2 = Some (acc ++ (if existsb is_many cells then many_lines cells else [PList (map enc_out cells)]))).
+  { destruct (existsb is_many cells) eqn:Em; cbn [negb].
+    - destruct (branch_many cells loc1 acc Hc1 Em Hy1) as [loc2 [E [Hy2 K2]]]. exists loc2. auto.
+    - rewrite exec_block_cons.
+      rewrite (exec_yield _ _ (PList (map enc_out cells)) acc); [|cbn; rewrite Hc1; reflexivity|exact Hy1].
+      cbn [bind write locals fields]. rewrite exec_block_nil. eexists. split; [reflexivity|]. split.
+      + keep_tac.
+      + unfold ylist. now rewrite lookup_update_eq. }
+  destruct E2 as [loc2 [E2 [K2 Hy2]]]. rewrite E2. cbn [bind].
+  assert (I2 : rr_inv loc2) by (apply (keep_inv loc1); [exact K2|apply (keep_inv loc); [exact K1|repeat split; assumption]]).
+  destruct I2 as [Hr2 [Hn2 [Hs2 Hx2]]].
+  (* the spacing row *)
+  rewrite exec_block_cons, rr_spaced_shape.
+  erewrite (exec_if call_ref PT _ _ _ _ _ (PBool (o_spaced o)) (o_spaced o)).
+  2:{ erewrite eval_prim1; [|cbn; rewrite Hx2; reflexivity]. reflexivity. }
+  2:{ reflexivity. }
+  unfold row_pv. fold cells. destruct (o_spaced o).
+  - rewrite exec_block_cons.
+    rewrite (exec_yield _ _ (PList (repeat (enc_s []) (length tvs0))) _ ); [|cbn; rewrite Hs2; reflexivity|exact Hy2].
+    cbn [bind write locals fields]. rewrite exec_block_nil. cbn [bind]. rewrite exec_block_nil.
+    eexists. split; [reflexivity|]. split.
+    + apply (keep_inv loc2); [keep_tac|repeat split; assumption].
+    + unfold ylist. rewrite lookup_update_eq. now rewrite <- app_assoc.
+  - rewrite exec_block_nil. cbn [bind]. rewrite exec_block_nil. exists loc2. split; [reflexivity|]. split.
+    + repeat split; assumption.
+    + now rewrite app_nil_r.
+Qed.
 End Top.
